@@ -157,7 +157,7 @@ pub async fn oauth2_callback(
         Ok(Ok(OAuth2MsgResult::UserMeta(meta))) => Some(Arc::new(UserSession {
             username: Arc::new(meta.user_name.clone()),
             nickname: Some(meta.user_name),
-            roles: vec![meta.role],
+            roles: meta.roles,
             namespace_privilege: meta.namespace_privilege,
             extend_infos: HashMap::default(),
             refresh_time: now_second_i32() as u32,
